@@ -99,3 +99,14 @@ def split_tasks(env, types_filter, per="type"):
                 continue
             tasks.append({"backend": b, "ty": ty, "entry": ent, "bin": e["bins"]["x_core"]})
     return tasks
+
+
+RATIO_HI = Fraction(10 ** 19)
+
+
+def pair_ok(backend, su, sv):
+    """Decimal: the ratio of two unit scales must itself be representable (fpdec holds |v| < 1.7e20);
+    unit pairs further apart than 1e19 are outside the supported range of the fixed-point back-end."""
+    if backend != "dec":
+        return True
+    return su / sv <= RATIO_HI and sv / su <= RATIO_HI
